@@ -150,7 +150,9 @@ type stackObserver interface {
 func observe(c stackObserver, off int64, withPtr bool) obs {
 	d := c.StackDepth()
 	o := obs{Off: off, Depth: d}
-	if withPtr {
+	if withPtr && d <= 256 {
+		// (a pointer 10000 levels deep is 20-40 KB; asked after each of 40000
+		// calls that would be gigabytes - deep pointers are sampled by C20)
 		o.Ptr = string(c.StackPointer())
 	}
 	for _, l := range idxLevels(d) {
